@@ -1,4 +1,5 @@
 """Lower a d0ast function body to the neutral structured tree of sa/ir.py with IR expressions."""
+import re
 from fractions import Fraction
 
 from . import ir
@@ -58,8 +59,19 @@ CTX_TYPES = ('bxdecay0::i_random &', 'bxdecay0::event &', 'i_random &', 'event &
 GLOBAL_CONSTS = {}      # qualified name of a const static/global with a literal initialiser -> IR
 
 
+RECORD_FIELDS = {}      # record name (qualified and short) -> ordered field names (aggregates only: no bases, no user constructor)
+
+
 def install_global_consts(prog):
     GLOBAL_CONSTS.clear()
+    RECORD_FIELDS.clear()
+    for qn, r in prog.records.items():
+        if r.get('bases') or any(m.get('ctor') and not m.get('defaulted') for m in r.get('methods', [])):
+            continue
+        names = [f['name'] for f in r.get('fields', [])]
+        if names:
+            RECORD_FIELDS[qn] = names
+            RECORD_FIELDS.setdefault(qn.split('::')[-1], names)
     lo = Lower({'qn': '<consts>'})
     for (qn, _), sv in prog.statics.items():
         if sv.get('const') and sv.get('dk') in ('global', 'static_member') and 'init' in sv:
@@ -375,6 +387,32 @@ class Lower:
             return [('try', self.stmts(s['body']), [self.stmts(h['body']) for h in s['handlers']], l)]
         return [('other', k, l)]
 
+    def _fill_loop(self, e, l):
+        qn = e['callee'].get('qn', '')
+        arr = n = val = None
+        if e['k'] == 'Call' and qn == 'std::fill_n' and len(e['args']) == 3:
+            arr, n, val = self.ex(e['args'][0]), self.ex(e['args'][1]), self.ex(e['args'][2])
+        elif e['k'] == 'Call' and qn == 'std::fill' and len(e['args']) == 3:
+            a0, a1 = self.ex(e['args'][0]), self.ex(e['args'][1])
+            if a1[0] == 'op' and a1[1] == '+' and len(a1) == 4 and a0 in (a1[2], a1[3]):
+                arr, n, val = a0, (a1[3] if a1[2] == a0 else a1[2]), self.ex(e['args'][2])
+        elif e['k'] == 'MCall' and qn.endswith('::fill') and 'std::array' in qn and len(e['args']) == 1:
+            m = re.search(r'std::array<[^,]+,\s*(\d+)', e['obj'].get('ty', '') or qn)
+            if m:
+                arr, n, val = self.ex(e['obj']), ('num', Fraction(int(m.group(1))), 'i'), self.ex(e['args'][0])
+        if arr is None:
+            return None
+        v = ('var', 'fill%d__i' % l)
+        i0 = ('op', '-', v, ('num', Fraction(1), 'i'))
+        if arr[0] == 'var':
+            tgt = ('idx', arr[1], i0)
+        elif arr[0] == 'fld' and arr[1][0] == 'var':
+            tgt = ('idx', '.' + arr[2], i0)
+        else:
+            return None
+        self.locals[v[1]] = 'int'
+        return [('do', v, ('num', Fraction(1), 'i'), n, ('num', Fraction(1), 'i'), [('assign', tgt, val, l)], l)]
+
     def expr_stmt(self, e, l):
         k = e['k']
         if is_stream_io(e):
@@ -403,6 +441,11 @@ class Lower:
         if k == 'OpCall' and e['op'] in ('+=', '-=') and len(e['args']) == 2:
             a = self.ex(e['args'][0])
             return [('assign', a, ('op', e['op'][0], a, self.ex(e['args'][1])), l)]
+        if k in ('Call', 'MCall') and 'callee' in e:
+            # std::fill_n(a, n, v) / std::fill(a, a + n, v) / std::array::fill(v) over a fixed array: the counted loop they stand for
+            f = self._fill_loop(e, l)
+            if f is not None:
+                return f
         if k in ('Call', 'MCall', 'OpCall', 'Ctor', 'TempCtor'):
             x = self.call(e)
             if x[0] == 'call':
